@@ -145,7 +145,7 @@ def t_cli_fresh(part, nparts, pairs):
 
 # ------------------------------------------------------------------------------------------------ library histories
 
-LIB_EVENTS = ['writable-sessionmaker-cls', 'writable-sessionmaker-flag', 'writable-session-open-close', 'load', 'query', 'orm-read', 'edit-attr', 'add-taxon', 'delete-genome', 'flush', 'autoflush-query', 'commit', 'rollback', 'close-session', 'gc', 'close-sigs']
+LIB_EVENTS = ['taxon-name-lookup', 'traverse-taxonomy', 'writable-sessionmaker-cls', 'writable-sessionmaker-flag', 'writable-session-open-close', 'load', 'query', 'orm-read', 'edit-attr', 'add-taxon', 'delete-genome', 'flush', 'autoflush-query', 'commit', 'rollback', 'close-session', 'gc', 'close-sigs']
 
 
 class World:
@@ -172,7 +172,7 @@ def lib_enabled(w):
 		# before the database is loaded: somebody else in the process may have asked for a WRITABLE session maker on the same file
 		# (without writing anything) - the default session obtained afterwards must still be read-only
 		return ['load'] + [e for e in WRITABLE if e not in w.done_writable]
-	ev = ['orm-read', 'edit-attr', 'add-taxon', 'delete-genome', 'flush', 'autoflush-query', 'commit', 'rollback', 'close-session', 'gc', 'load']
+	ev = ['orm-read', 'taxon-name-lookup', 'traverse-taxonomy', 'edit-attr', 'add-taxon', 'delete-genome', 'flush', 'autoflush-query', 'commit', 'rollback', 'close-session', 'gc', 'load']
 	if not w.sigs_closed:
 		ev += ['query', 'close-sigs']
 	return ev
@@ -215,6 +215,16 @@ def lib_apply(w, ev):
 	elif ev == 'orm-read':
 		[t.name for t in s.query(Taxon).all()]
 		[g.description for g in w.db.genomeset.genomes]
+	elif ev == 'taxon-name-lookup':
+		# statements that go through the non-unique indexes of the schema
+		s.query(Taxon).filter_by(name='Genus one').all()
+		s.query(Taxon).filter(Taxon.ncbi_id == 101).all()
+		s.query(Genome).filter_by(refseq_acc='GCF_1').all()
+		list(w.db.genomeset.root_taxa())
+	elif ev == 'traverse-taxonomy':
+		for root in w.db.genomeset.root_taxa():
+			for t in root.traverse():
+				t.isleaf(), list(t.ancestors()), [c.name for c in t.children], t.genomes.count()
 	elif ev == 'edit-attr':
 		t = s.query(Taxon).first()
 		t.name = (t.name or '') + ' edited'
@@ -328,6 +338,15 @@ def t_library(depth, part, nparts):
 				key = (disk_state(fx.dbdir), w.key())
 				enabled = lib_enabled(w)
 				lib_cleanup(w)
+				# closing the connections / disposing of the engine / garbage collection at the end of a history are events too
+				after = disk_state(fx.dbdir)
+				if after != s0:
+					sh.violation('database-files-changed', dict(history=list(hist) + ['(session closed, engine disposed, gc)'], mode='library'), [list(x) for x in s0], [list(x) for x in after])
+					# restore a pristine database for the following histories
+					import shutil
+					shutil.rmtree(os.path.join(d, 'fx'))
+					fx = clifix.build(os.path.join(d, 'fx'), params=['P0'])
+					continue
 				if any(e in hist for e in ('edit-attr', 'add-taxon', 'delete-genome')):
 					sh.nontrivial += 1
 					if any(e in hist[hist.index(next(x for x in hist if x in ('edit-attr', 'add-taxon', 'delete-genome'))):] for e in ('flush', 'autoflush-query', 'commit')):
@@ -361,10 +380,13 @@ def replay(case, kind=None):
 	with fixtures.workdir('c18r') as d:
 		fx = clifix.build(os.path.join(d, 'fx'), params=['P0', 'P1'])
 		if case['mode'] == 'library':
+			hist = [e for e in hist if not e.startswith('(')]
 			w, v, s0 = lib_replay(fx, tuple(hist))
 			lib_cleanup(w)
-			if v is not None:
+			if v is not None and v['kind'] != 'not-enabled':
 				sh.violation(v['kind'], case, None, v)
+			elif disk_state(fx.dbdir) != s0:
+				sh.violation('database-files-changed', case, [list(x) for x in s0], [list(x) for x in disk_state(fx.dbdir)])
 			return sh.violations
 		s0 = disk_state(fx.dbdir)
 		for ev in hist:
